@@ -2,6 +2,7 @@ package rules
 
 import (
 	"fmt"
+	"go/constant"
 	"go/token"
 	"go/types"
 	"strings"
@@ -801,6 +802,122 @@ func init() {
 	explain["C16"] += " gc-evicts-cache (shared with C09): 'every object a version refers to exists' also after a vacuum with a node cache."
 }
 
+// sprintfShape describes a key built by fmt.Sprintf: the format constant and, per verb position, a
+// label of what is passed.
+func sprintfShape(v ssa.Value) (format string, args []ssa.Value, ok bool) {
+	// a key kept in a (captured) local: the single value stored into it
+	if ld, isLd := v.(*ssa.UnOp); isLd && ld.Op == token.MUL {
+		if al, isAl := ld.X.(*ssa.Alloc); isAl {
+			var src ssa.Value
+			n := 0
+			for _, r := range *al.Referrers() {
+				if st, isSt := r.(*ssa.Store); isSt && st.Addr == ssa.Value(al) {
+					src = st.Val
+					n++
+				}
+			}
+			if n == 1 {
+				v = src
+			}
+		}
+	}
+	cl, isCall := an.Unwrap(v).(*ssa.Call)
+	if !isCall {
+		return "", nil, false
+	}
+	f := cl.Call.StaticCallee()
+	if f == nil || an.PkgPathOf(f) != "fmt" || f.Name() != "Sprintf" || len(cl.Call.Args) != 2 {
+		return "", nil, false
+	}
+	k, isK := cl.Call.Args[0].(*ssa.Const)
+	if !isK || k.Value == nil || k.Value.Kind() != constant.String {
+		return "", nil, false
+	}
+	// the variadic slice: new [N]any; stores at constant indices
+	sl, isSl := cl.Call.Args[1].(*ssa.Slice)
+	if !isSl {
+		return "", nil, false
+	}
+	al, isAl := sl.X.(*ssa.Alloc)
+	if !isAl {
+		return "", nil, false
+	}
+	vals := map[int64]ssa.Value{}
+	for _, r := range *al.Referrers() {
+		ia, isIA := r.(*ssa.IndexAddr)
+		if !isIA {
+			continue
+		}
+		ik, isC := ia.Index.(*ssa.Const)
+		if !isC || ia.Referrers() == nil {
+			continue
+		}
+		for _, rr := range *ia.Referrers() {
+			if st, isSt := rr.(*ssa.Store); isSt {
+				vals[ik.Int64()] = st.Val
+			}
+		}
+	}
+	for i := int64(0); i < int64(len(vals)); i++ {
+		args = append(args, vals[i])
+	}
+	return constant.StringVal(k.Value), args, true
+}
+
+// sameCacheKeyFormat compares the way a cache key is built with the way mast builds the key it
+// passes to NodeCache.Contains in (*mastNode).store.
+func sameCacheKeyFormat(c *Ctx, key ssa.Value) (bool, string) {
+	store := depMethod(c, mastPkg, "mastNode", "store")
+	if store == nil {
+		return false, "mast's (*mastNode).store not found"
+	}
+	var ref string
+	var refN int
+	found := false
+	fns := append([]*ssa.Function{store}, store.AnonFuncs...)
+	for _, f := range fns {
+		for _, call := range an.Calls(f) {
+			if calleeLabel(call) != "Contains" || len(call.Common().Args) == 0 {
+				continue
+			}
+			a := call.Common().Args[len(call.Common().Args)-1]
+			if mi, ok := a.(*ssa.MakeInterface); ok {
+				a = mi.X
+			}
+			if ft, as, ok := sprintfShape(a); ok {
+				ref, refN, found = ft, len(as), true
+			}
+		}
+	}
+	if !found {
+		return false, "cannot read how mast builds its cache key"
+	}
+	if mi, ok := key.(*ssa.MakeInterface); ok {
+		key = mi.X
+	}
+	ft, as, ok := sprintfShape(key)
+	if !ok {
+		return false, fmt.Sprintf("mast uses fmt.Sprintf(%q, prefix, name); the key here is not a Sprintf", ref)
+	}
+	if ft != ref || len(as) != refN {
+		return false, fmt.Sprintf("mast uses the format %q, here %q", ref, ft)
+	}
+	// same order: the prefix first, the name second
+	if refN == 2 {
+		first := false
+		an.DependsOn(as[0], func(v ssa.Value) bool {
+			if cl, ok := v.(*ssa.Call); ok && calleeLabel(cl) == "NodeURLPrefix" {
+				first = true
+			}
+			return false
+		})
+		if !first {
+			return false, "the first verb does not get NodeURLPrefix()"
+		}
+	}
+	return true, ""
+}
+
 func c09EvictsCache(c *Ctx) {
 	const rule = "C09.gc-evicts-cache"
 	dh := mustFunc(c, "kv", "", "DeleteHistoricVersions")
@@ -849,8 +966,12 @@ func c09EvictsCache(c *Ctx) {
 					}
 					return false
 				})
-				if usesPrefix && usesName {
+				// and it is built exactly the way mast builds the key it asks the cache about
+				fmtOK, fmtWhy := sameCacheKeyFormat(c, keyArg)
+				if usesPrefix && usesName && fmtOK {
 					good = true
+				} else if usesPrefix && usesName {
+					why = fmt.Sprintf("the cache key removed at %s is not built the way mast builds the key it looks up (%s): Remove of a key that is never present is silent, the deleted node stays 'already stored' for the cache", c.P.Pos(call.Pos()), fmtWhy)
 				} else {
 					why = fmt.Sprintf("the cache key removed at %s is not '<NodeURLPrefix()>/<name of the deleted node>' (prefix %v, name %v)", c.P.Pos(call.Pos()), usesPrefix, usesName)
 				}
